@@ -289,6 +289,7 @@ theorem remJ_items {v : XmlVar} {x : Val} (hs : Shape v x) (ht : v.tokens = fals
   | none _ _ => simp [remJ, hemit]
   | prim p _ _ => simp [remJ, hemit]
   | obj c fs _ _ => simp [remJ, hemit]
+  | any q t tl a k _ _ => simp [remJ, hemit]
   | seqItem _ _ harr =>
     cases x with
     | list l => simp [Val.isArray] at harr
@@ -563,26 +564,26 @@ theorem eq_of_nodup_index {l : List XmlVar} (h : (l.map (·.index)).Nodup) {a b 
     · exact absurd (List.mem_map.2 ⟨a, ha', hq⟩) h.1
     · exact ih h.2 ha' hb'
 
-/-- the number of entries of a non-list var with index `idx` -/
+/-- the number of entries of a non-list element var with index `idx` -/
 def cntIdx (E : List (XmlVar × Val)) (idx : Nat) : Nat :=
-  (E.filter (fun en => !en.1.listElement && decide (en.1.index = idx))).length
+  (E.filter (fun en => !multi en.1 && decide (en.1.index = idx))).length
 
 theorem AssignedOK_of_cnt : ∀ (E : List (XmlVar × Val)) (asg : List Nat),
-    (∀ idx, cntIdx E idx ≤ 1 ∧ (idx ∈ asg → cntIdx E idx = 0)) → AssignedOK asg E := by
+    (∀ idx, cntIdx E idx ≤ 1 ∧ (idx ∈ asg → cntIdx E idx = 0)) → AssignedOKN asg E := by
   intro E
   induction E with
   | nil => intro _ _; trivial
   | cons en r ih =>
     intro asg h
     obtain ⟨var, y⟩ := en
-    by_cases hl : var.listElement = true
-    · simp only [AssignedOK, hl, if_true]
+    by_cases hl : multi var = true
+    · simp only [AssignedOKN, hl, if_true]
       apply ih
       intro idx
       have := h idx
       simpa [cntIdx, List.filter_cons, hl] using this
-    · have hl' : var.listElement = false := by simpa using hl
-      simp only [AssignedOK, hl', Bool.false_eq_true, if_false]
+    · have hl' : multi var = false := by simpa using hl
+      simp only [AssignedOKN, hl', Bool.false_eq_true, if_false]
       have hcons : ∀ idx, cntIdx ((var, y) :: r) idx =
           (if var.index = idx then 1 else 0) + cntIdx r idx := by
         intro idx
@@ -683,12 +684,13 @@ theorem AssignedOK_spec {fields : List (Str × Val)} {vars : List XmlVar} {R : L
     (hspec : GoSpec fields vars R) (hnd : (vars.map (·.name)).Nodup)
     (hidx : (vars.map (·.index)).Nodup)
     (hshort : ∀ var ∈ vars, var.listElement = false → (itemsN var (look fields var.name)).length ≤ 1) :
-    AssignedOK [] (R.flatMap chunkEntries) := by
+    AssignedOKN [] (R.flatMap chunkEntries) := by
   apply AssignedOK_of_cnt
   intro idx
   refine ⟨?_, fun h => by cases h⟩
-  by_cases hex : ∃ v ∈ vars, v.index = idx ∧ v.listElement = false
-  · obtain ⟨v, hv, hvi, hvl⟩ := hex
+  by_cases hex : ∃ v ∈ vars, v.index = idx ∧ multi v = false
+  · obtain ⟨v, hv, hvi, hvm⟩ := hex
+    have hvl := (multi_false hvm).2
     have hle : cntIdx (R.flatMap chunkEntries) idx ≤
         ((R.flatMap chunkEntries).filter (fun en => en.1.name = v.name)).length := by
       unfold cntIdx
